@@ -64,6 +64,9 @@ def generate(rng, tier):
                 ["seg", gen.rand_segment(rng, regime, span=30, maxlen=25)]
             cases.append({"k": "call", "regime": regime, "dur": d * u, "step": s * u, "start": rng.randrange(-3, 4) * u,
                           "sup": sup, "align": rng.random() < 0.5})
+    # window(support) with the support hours, days or decades away from the origin (epoch-sized stamps on the dyadic grids)
+    cases += gen.far_copies(rng, [c_ for c_ in cases if c_["k"] == "call" and c_["regime"] in ("K0", "K1")], ["sup"],
+                            300 if tier == "thorough" else 80)
     # tolerance tier: decimal (non-dyadic) parameters as users write them (the library default is 30 ms / 10 ms)
     steps = [0.01, 0.02, 0.016, 0.1, 0.25, 1 / 3, 0.005, 0.0125, 0.3]
     for _ in range(3000 if tier == "thorough" else 400):
